@@ -7,7 +7,7 @@ HEAD = "import sys\nsys.path.insert(0, '/verif')\nfrom replay_lib.opt_native imp
 
 def INCLUDE(name):
     m = re.match(r"(C\d\d)\.", name)
-    return (m is not None and m.group(1) == "C04") or name.startswith("C07.update_opset_imports") or name.startswith("C07.apply.existing_initializer") or name.startswith("C07.try_rewrite.opset_imports") or name.startswith("C07.apply_to_model.namefix")
+    return (m is not None and m.group(1) == "C04") or name.startswith("FoldConstantsPass.process_node.loop") or name.startswith("C07.update_opset_imports") or name.startswith("C07.apply.existing_initializer") or name.startswith("C07.try_rewrite.opset_imports") or name.startswith("C07.apply_to_model.namefix")
 
 
 def replay(ob):
@@ -18,7 +18,7 @@ def replay(ob):
         return HEAD + "main(['pipeline_names'])\n"
     if ".gather." in n:
         return HEAD + "main(['gather'])\n"
-    if "none_for_graph_inputs" in n:
+    if "none_for_graph_inputs" in n or "process_node.any_inputs" in n or "process_node.loop" in n:
         return HEAD + "main(['initializer'])\n"
     if "split_to_sequence" in n:
         return HEAD + "main(['split'])\n"
